@@ -56,6 +56,8 @@ def run(F, tier):
     grules.g7(rep, tms, F)
     grules.g8(rep, tms)
     grules.g9(rep, tms)
+    grules.g10(rep, tms)
+    grules.g11(rep, tms)
     options.o1(rep, F, ft, tms)
     co_occurrence(rep, tms, ft)
     rep.programs = 3 * len(tms)
